@@ -48,6 +48,72 @@ Proof. induction ls; simpl; auto. rewrite filter_app', IHls. auto. Qed.
 Lemma filter_length_le {A} (p : A -> bool) l : length (filter p l) <= length l.
 Proof. induction l; simpl; auto. destruct (p a); simpl; lia. Qed.
 
+(* ------------------------------------------- multi-indices (C order) *)
+Lemma nd_unravel_valid s k : k < size s -> valid s (unravel s k).
+Proof.
+  revert k; induction s as [|n s IH]; intros k Hk; simpl in *.
+  - constructor.
+  - assert (Hm : 0 < size s) by (destruct (size s); lia).
+    assert (Hn : 0 < n) by (destruct n; lia).
+    constructor.
+    + apply Nat.mod_upper_bound; lia.
+    + apply IH. apply Nat.mod_upper_bound; lia.
+Qed.
+
+Lemma nd_ravel_unravel s k : k < size s -> ravel s (unravel s k) = k.
+Proof.
+  revert k; induction s as [|n s IH]; intros k Hk; simpl in *.
+  - lia.
+  - assert (Hm : 0 < size s) by (destruct (size s); lia).
+    assert (Hd : k / size s < n) by (apply Nat.div_lt_upper_bound; lia).
+    rewrite Nat.mod_small by exact Hd.
+    rewrite IH by (apply Nat.mod_upper_bound; lia).
+    pose proof (Nat.div_mod k (size s)). lia.
+Qed.
+
+Lemma nd_unravel_ravel s idx : valid s idx -> unravel s (ravel s idx) = idx.
+Proof.
+  intros H; induction H as [|i n idx s Hi Hrest IH]; simpl; [reflexivity|].
+  pose proof (ravel_lt _ _ Hrest) as Hr.
+  assert (Hm : 0 < size s) by lia.
+  rewrite Nat.div_add_l by lia. rewrite (Nat.div_small (ravel s idx)) by lia.
+  rewrite Nat.add_0_r, Nat.mod_small by lia.
+  rewrite Nat.add_comm, Nat.mod_add by lia. rewrite Nat.mod_small by lia.
+  rewrite IH; reflexivity.
+Qed.
+
+Lemma nd_valid_rev s idx : valid s idx -> valid (rev s) (rev idx).
+Proof.
+  intros H; induction H as [|i n idx s Hi Hrest IH]; simpl; [constructor|].
+  apply Forall2_app; [exact IH|]. constructor; [exact Hi|constructor].
+Qed.
+
+Lemma nd_size_rev s : size (rev s) = size s.
+Proof. induction s as [|n s IH]; simpl; auto. rewrite size_app, IH. simpl. lia. Qed.
+
+Lemma nth_seq_map {B} (F : nat -> B) N k dB : k < N -> nth k (map F (seq 0 N)) dB = F k.
+Proof.
+  intros H. rewrite (nth_map_lt F (seq 0 N) k 0 dB) by (rewrite seq_length; auto).
+  rewrite seq_nth by auto. reflexivity.
+Qed.
+
+(* the column-major enumeration (Object3d.flatten) followed by reshape to the
+   reversed shape and transposition is the identity on the C-order list *)
+Lemma unflatten_flatten {A B} (f : A -> B) (dA : A) (dB : B) shape (data : list A) :
+  length data = size shape ->
+  unflattenF dB shape (map f (flattenF dA shape data)) = map f data.
+Proof.
+  intros H. unfold unflattenF.
+  rewrite <- (map_nth_seq f data dA). rewrite H.
+  apply map_ext_in. intros k Hk. apply in_seq in Hk. assert (Hk' : k < size shape) by lia.
+  pose proof (nd_valid_rev _ _ (nd_unravel_valid shape k Hk')) as V.
+  pose proof (ravel_lt _ _ V) as L. rewrite nd_size_rev in L.
+  rewrite (nth_map_lt f (flattenF dA shape data) _ dA dB)
+    by (unfold flattenF; rewrite map_length, seq_length; exact L).
+  f_equal. unfold flattenF. rewrite nth_seq_map by exact L.
+  rewrite (nd_unravel_ravel _ _ V), rev_involutive, (nd_ravel_unravel shape k Hk'). reflexivity.
+Qed.
+
 (* ============================================================ symmetrise *)
 Section Sym.
 Context {G E K : Type} (cmp : K -> K -> comparison) (CO : cmp_order cmp)
@@ -227,22 +293,21 @@ Proof.
   - rewrite (map_nth_seq (fun x => x) data d). apply map_id.
 Qed.
 
-Theorem multiplicity_1d n (data : list E) : length data = n ->
-  multiplicity cmp rnd iszero key d zero exact0 act ops [n] data
+(* Miller.multiplicity of an object of ANY shape: element-wise number of
+   distinct (rounded) images -- the multiplicities of the column-major
+   enumeration are put back by the inverse enumeration *)
+Theorem multiplicity_nd shape (data : list E) : length data = size shape ->
+  multiplicity cmp rnd iszero key d zero exact0 act ops shape data
   = map (fun v => length (block_of v)) data.
 Proof.
-  intros H. unfold multiplicity, symmetrise_unique_nd. rewrite (flattenF_1d n data H).
-  rewrite symmetrise_unique_spec. reflexivity.
+  intros H. unfold multiplicity, symmetrise_unique_nd. rewrite symmetrise_unique_spec. simpl snd.
+  apply (unflatten_flatten (fun v => length (block_of v)) d 0 shape data H).
 Qed.
 
-(* in general: the multiplicities of the column-major enumeration, laid out
-   row-major *)
-Theorem multiplicity_nd_partial shape (data : list E) :
-  multiplicity cmp rnd iszero key d zero exact0 act ops shape data
-  = map (fun v => length (block_of v)) (flattenF d shape data).
-Proof.
-  unfold multiplicity, symmetrise_unique_nd. rewrite symmetrise_unique_spec. reflexivity.
-Qed.
+Corollary multiplicity_1d n (data : list E) : length data = n ->
+  multiplicity cmp rnd iszero key d zero exact0 act ops [n] data
+  = map (fun v => length (block_of v)) data.
+Proof. intros H. apply multiplicity_nd. simpl. lia. Qed.
 End Sym.
 
 (* ============================== exact de-duplication: blocks are the orbits *)
@@ -397,77 +462,106 @@ Proof. intros H [H1 H2]. split; [apply H; auto|]. intros x Hx. apply H2, H; auto
 End MinSpec.
 
 Section Angle.
-Context {G E K A : Type} (cmp : K -> K -> comparison) (CO : cmp_order cmp)
-        (rnd : E -> E) (iszero : E -> bool) (key : E -> K) (d zero : E) (exact0 : E -> bool)
-        (act : G -> E -> E) (ops : list G)
-        (leb : A -> A -> bool) (ang : E -> E -> A).
-Hypothesis zero_exact0 : exact0 zero = true.
-Hypothesis exact0_iszero : forall e, exact0 e = true -> iszero e = true.
-Hypothesis key_eq : forall x y, keq cmp (key x) (key y) = true <-> x = y.
+Context {G E A : Type} (leb : A -> A -> bool) (ang : E -> E -> A) (act : G -> E -> E) (ops : list G) (d : E).
 Hypothesis leb_total : forall x y, leb x y = true \/ leb y x = true.
 Hypothesis leb_trans : forall x y z, leb x y = true -> leb y z = true -> leb x z = true.
 
-Definition other2 (other : list E) : list E :=
-  fst (fst (symmetrise_unique cmp rnd iszero key d zero exact0 act ops other)).
+Notation sma := (sym_min_angle leb ang act ops).
 
-(* what the code computes for ANY other: entry i is a minimum of the angles
-   between self[i] and the concatenated blocks of ALL vectors of other *)
-Theorem angle_with_sym_spec (self other : list E) res :
-  angle_with_sym leb ang self (other2 other) = Some res ->
-  length res = length self /\
-  forall i, i < length self ->
-    is_min leb (nth i res (ang d d))
-           (map (ang (nth i self d)) (concat (map (block_of cmp rnd iszero key d act ops) other))).
+(* the angle of one pair: a minimum over the images of the other vector *)
+Lemma sym_min_angle_spec v w : ops <> [] ->
+  is_min leb (sma v w) (map (fun g => ang v (act g w)) ops).
 Proof.
-  unfold other2. rewrite (symmetrise_unique_spec cmp CO rnd iszero key d zero exact0 act ops zero_exact0 exact0_iszero).
-  simpl fst. set (o2 := concat _). unfold angle_with_sym.
-  destruct o2 as [|w o2'] eqn:Eo; [discriminate|]. intros [= <-]. rewrite map_length. split; auto.
-  intros i Hi.
-  rewrite (nth_map_lt (fun v => fold_left (min2 leb) (map (ang v) o2') (ang v w)) self i d (ang d d) Hi).
-  apply (fold_min_spec leb leb_total leb_trans (map (ang (nth i self d)) o2') (ang (nth i self d) w)).
+  intros Hne. unfold sym_min_angle.
+  destruct (lmin_some leb (map (fun g => ang v (act g w)) ops)) as [a Ha].
+  - destruct ops; [congruence|discriminate].
+  - rewrite Ha. apply (lmin_spec leb leb_total leb_trans _ _ Ha).
 Qed.
 
-(* the property, for ONE other vector: the symmetry-aware angle is the
-   minimum of the angles to all images of the other vector *)
-Theorem angle_min_over_orbit (self : list E) (w : E) res :
-  exact_on rnd iszero act ops w ->
-  angle_with_sym leb ang self (other2 [w]) = Some res ->
-  length res = length self /\
-  forall i, i < length self ->
-    is_min leb (nth i res (ang d d)) (map (fun g => ang (nth i self d) (act g w)) ops).
+(* what the code computes for ANY shapes: self and other are broadcast
+   against each other and entry idx of the result is a minimum of the angles
+   between the vector of self at idx and all images of the vector of other at
+   idx (bidx = the index into an operand with broadcast axes of length 1) *)
+Theorem angle_with_sym_spec sS sO (self other : list E) s res :
+  angle_with_sym leb ang act ops d sS sO self other = Some (s, res) ->
+  bshape sS sO = Some s /\ length res = size s /\
+  forall k, k < size s ->
+    is_min leb (nth k res (ang d d))
+      (map (fun g => ang (nth (ravel (pad_shape (length s) sS) (bidx (pad_shape (length s) sS) (unravel s k))) self d)
+                         (act g (nth (ravel (pad_shape (length s) sO) (bidx (pad_shape (length s) sO) (unravel s k))) other d)))
+           ops).
 Proof.
-  intros Hex H. destruct (angle_with_sym_spec self [w] res H) as [H1 H2]. split; auto.
-  intros i Hi. specialize (H2 i Hi). simpl in H2. rewrite app_nil_r in H2.
-  destruct (block_is_orbit cmp CO rnd iszero key d act ops key_eq w Hex) as [_ [_ Hin]].
-  replace (map (fun g => ang (nth i self d) (act g w)) ops)
-    with (map (ang (nth i self d)) (orbit_of act ops w))
-    by (unfold orbit_of; rewrite map_map; reflexivity).
-  apply (is_min_same_set leb _ _ _ (fun x => conj
-           (fun Hx => match in_map_iff (ang (nth i self d)) _ x with
-                      | conj f _ => match f Hx with
-                                    | ex_intro _ y (conj Ey Hy) =>
-                                        match in_map_iff (ang (nth i self d)) _ x with
-                                        | conj _ b => b (ex_intro _ y (conj Ey (proj1 (Hin y) Hy)))
-                                        end
-                                    end
-                      end)
-           (fun Hx => match in_map_iff (ang (nth i self d)) _ x with
-                      | conj f _ => match f Hx with
-                                    | ex_intro _ y (conj Ey Hy) =>
-                                        match in_map_iff (ang (nth i self d)) _ x with
-                                        | conj _ b => b (ex_intro _ y (conj Ey (proj2 (Hin y) Hy)))
-                                        end
-                                    end
-                      end)) H2).
+  unfold angle_with_sym. destruct ops as [|g0 ops'] eqn:Eo; [discriminate|]. rewrite <- Eo.
+  unfold bcast2. destruct (bshape sS sO) as [s'|]; [|discriminate].
+  intros [= <- <-]. split; [reflexivity|]. split; [rewrite map_length, seq_length; reflexivity|].
+  intros k Hk. rewrite nth_seq_map by exact Hk.
+  apply sym_min_angle_spec. rewrite Eo. discriminate.
 Qed.
 
-(* other2 is empty (np.min raises) exactly when every block is empty *)
-Lemma angle_none self other :
-  angle_with_sym leb ang self (other2 other) = None <->
-  concat (map (block_of cmp rnd iszero key d act ops) other) = [].
+(* which shapes are accepted: exactly the broadcastable ones *)
+Lemma angle_with_sym_none sS sO (self other : list E) : ops <> [] ->
+  (angle_with_sym leb ang act ops d sS sO self other = None <-> bshape sS sO = None).
 Proof.
-  unfold other2. rewrite (symmetrise_unique_spec cmp CO rnd iszero key d zero exact0 act ops zero_exact0 exact0_iszero).
-  simpl fst. unfold angle_with_sym. destruct (concat _); split; intros; auto; discriminate.
+  intros Hne. unfold angle_with_sym. destruct ops; [congruence|].
+  unfold bcast2. destruct (bshape sS sO); split; intros; auto; discriminate.
+Qed.
+
+(* ---- 1-d operands *)
+Lemma bcast2_1d_same {X Y Z} (f : X -> Y -> Z) dx dy n (xs : list X) (ys : list Y) :
+  bcast2 f dx dy [n] [n] xs ys = Some ([n], map (fun k => f (nth k xs dx) (nth k ys dy)) (seq 0 n)).
+Proof.
+  unfold bcast2, bshape. simpl length. simpl Nat.max. unfold pad_shape. simpl repeat. simpl app.
+  simpl zip_with. unfold bcompat. rewrite Nat.eqb_refl. simpl forallb.
+  assert (B : bdim n n = n) by (unfold bdim; destruct (Nat.eqb n 1); auto). rewrite B.
+  simpl length. simpl repeat. simpl app. f_equal. f_equal.
+  simpl size. rewrite Nat.mul_1_r. apply map_ext_in. intros k Hk. apply in_seq in Hk.
+  cbn [unravel size fold_right]. rewrite Nat.div_1_r, Nat.mod_small by lia.
+  unfold bidx. cbn [zip_with].
+  assert (I : (if Nat.eqb n 1 then 0 else k) = k)
+    by (destruct (Nat.eqb n 1) eqn:N1; auto; apply Nat.eqb_eq in N1; lia).
+  rewrite I. cbn [ravel size fold_right]. rewrite Nat.mul_1_r, Nat.add_0_r. reflexivity.
+Qed.
+
+Lemma bcast2_1d_one {X Y Z} (f : X -> Y -> Z) dx dy n (xs : list X) (ys : list Y) :
+  bcast2 f dx dy [n] [1] xs ys = Some ([n], map (fun k => f (nth k xs dx) (nth 0 ys dy)) (seq 0 n)).
+Proof.
+  unfold bcast2, bshape. simpl length. simpl Nat.max. unfold pad_shape. simpl repeat. simpl app.
+  simpl zip_with. unfold bcompat. simpl (Nat.eqb 1 1). rewrite !orb_true_r. simpl forallb.
+  assert (B : bdim n 1 = n) by (unfold bdim; destruct (Nat.eqb n 1) eqn:N1; auto; apply Nat.eqb_eq in N1; lia).
+  rewrite B. simpl length. simpl repeat. simpl app. f_equal. f_equal.
+  simpl size. rewrite Nat.mul_1_r. apply map_ext_in. intros k Hk. apply in_seq in Hk.
+  cbn [unravel size fold_right]. rewrite Nat.div_1_r, Nat.mod_small by lia.
+  unfold bidx. cbn [zip_with]. simpl (Nat.eqb 1 1). cbv iota.
+  assert (I : (if Nat.eqb n 1 then 0 else k) = k)
+    by (destruct (Nat.eqb n 1) eqn:N1; auto; apply Nat.eqb_eq in N1; lia).
+  rewrite I. cbn [ravel size fold_right]. rewrite Nat.mul_1_r, !Nat.add_0_r. reflexivity.
+Qed.
+
+(* the property for equally many vectors: ELEMENT-WISE, entry i is the
+   minimum of the angles between self[i] and all images of other[i] *)
+Theorem angle_elementwise n (self other : list E) : ops <> [] ->
+  exists res, angle_with_sym leb ang act ops d [n] [n] self other = Some ([n], res) /\ length res = n /\
+    forall i, i < n ->
+      is_min leb (nth i res (ang d d)) (map (fun g => ang (nth i self d) (act g (nth i other d))) ops).
+Proof.
+  intros Hne. exists (map (fun k => sma (nth k self d) (nth k other d)) (seq 0 n)).
+  split; [|split].
+  - unfold angle_with_sym. destruct ops; [congruence|]. apply bcast2_1d_same.
+  - rewrite map_length, seq_length. reflexivity.
+  - intros i Hi. rewrite nth_seq_map by exact Hi. apply sym_min_angle_spec. exact Hne.
+Qed.
+
+(* one other vector: every entry is the minimum over the images of that vector *)
+Theorem angle_one_other n (self : list E) (w : E) : ops <> [] ->
+  exists res, angle_with_sym leb ang act ops d [n] [1] self [w] = Some ([n], res) /\ length res = n /\
+    forall i, i < n ->
+      is_min leb (nth i res (ang d d)) (map (fun g => ang (nth i self d) (act g w)) ops).
+Proof.
+  intros Hne. exists (map (fun k => sma (nth k self d) w) (seq 0 n)).
+  split; [|split].
+  - unfold angle_with_sym. destruct ops; [congruence|]. exact (bcast2_1d_one _ d d n self [w]).
+  - rewrite map_length, seq_length. reflexivity.
+  - intros i Hi. rewrite nth_seq_map by exact Hi. apply sym_min_angle_spec. exact Hne.
 Qed.
 End Angle.
 
